@@ -74,6 +74,16 @@ func VerifC02_FstreeQueryPrefix() {
 			read[rt.FsPath(i)] = true
 		}
 	}
+	// a prefix below which nothing is stored - also one that names no existing
+	// directory, or runs through a record - is an empty result, not an error
+	// (with no record read, no record can have failed to load)
+	anyRead := false
+	for _, f := range files {
+		anyRead = anyRead || read[root+"/"+f]
+	}
+	if !anyRead {
+		rt.Assert(it.Err() == nil, "fstreeprefix/no-error-for-a-prefix-without-records")
+	}
 	walkFailed := it.Err() != nil
 	for _, f := range files {
 		matches := len(f) >= len(prefix) && rt.EqStr(f[:len(prefix)], prefix)
